@@ -12,13 +12,21 @@ event                                   index of a main-loop event emitted now  
 birth <k>                               simulant creator called by a listener               → ok <new ids>
 snooze <ids>                            move_simulants_to_end(ids)                          → ok <pending ids>
 untrack <ids> | retrack <ids>           a listener writes the `tracked` column (the clocks do not look at it) → ok
-step <mods>                             SimulationClock.step_forward(population.index), then the restore of an
+step <mods> [<calls>]                   SimulationClock.step_forward(population.index), then the restore of an
                                         overridden step (only without individual clocks / with an empty population, F33) → st <now> <step> <pending> <id:next:step;…>
+fail                                    the iteration ended in a listener that raised: no clock update, an overridden step stays → st …
 ```
+`init` takes the same optional `<calls>` and then an optional `<ids>`: a move-to-end request made by an initializer of the
+initial population (before the first `step_forward`).
+`<calls>`: `-` or one entry per registered modifier (registration order) separated by `;`: `_` (nothing), `<ids>` (the modifier calls
+`move_simulants_to_end(ids)` while it is evaluated), `<ids>!` (… and then raises), `!<ids>` / `!` (raises, the request is never made).
+A `step_forward` that fails replies `err population|raised|key st …` with the state it leaves behind (clock moved, rest untouched,
+pending set grown by the requests made before the exception).
 `<mods>`: `-` or one entry per existing simulant (label order) separated by `;`, each entry the outputs
 of the registered modifiers for that simulant separated by `,`, `_` = NaN / not covered (ignored without modifiers).
 Errors of the real code: `err value` (SimpleClock and an explicit step size of 0: ValueError), `err population` (a pending move-to-end label is not in the state table:
-KeyError in `step_forward`). A global step of zero is not an error for a DateTimeClock (`Timedelta(0) == 0`
+KeyError in `step_forward`), `err raised` (a modifier raised), `err key` (after the evaluation the pending set names a simulant that is not being
+updated: KeyError in `.loc`). A global step of zero is not an error for a DateTimeClock (`Timedelta(0) == 0`
 is False, so the `step_size` property does not raise). -/
 open Viv Viv.Proto Viv.Clock
 
@@ -42,12 +50,27 @@ def showSims (xs : List SimClk) : String :=
 def showSt (c : Clock) : String :=
   s!"st {c.now} {c.step} {showNats c.snooze} {showSims c.sims}"
 
-/-- `step_forward` guarded the way the real code fails -/
-def guardedStep (indiv : Bool) (c : Clock) (t : List (List (Option Nat))) : Except String Clock :=
-  if !indiv then .ok (stepForwardGlobal c)
+def call? (s : String) : Option ModCall :=
+  if s = "_" then some {}
+  else if s.startsWith "!" then
+    let r := (s.drop 1).toString
+    if r = "" then some { raises := true, reqFirst := false }
+    else (natList r).map fun ids => { req := ids, raises := true, reqFirst := false }
+  else if s.endsWith "!" then (natList (s.dropEnd 1).toString).map fun ids => { req := ids, raises := true }
+  else (natList s).map fun ids => { req := ids }
+
+def calls? (s : String) : Option (List ModCall) :=
+  if s = "-" then some [] else (s.splitOn ";").mapM call?
+
+/-- `step_forward` the way the real code completes or fails -/
+def guardedStep (indiv : Bool) (c : Clock) (t : List (List (Option Nat))) (calls : List ModCall) :
+    Except String (Clock × Outcome) :=
+  if !indiv then .ok (stepForwardGlobal c, .done)
   else if t.length ≠ c.sims.length then .error "bad-op"
-  else if !c.sims.isEmpty && c.snooze.any (fun i => !knows c i) then .error "err population"
-  else .ok (stepForward c (modsOf t))
+  else .ok (stepForwardRe c (modsOf t) calls)
+
+def showErr : Outcome → String
+  | .done => "ok" | .popError => "err population" | .raised => "err raised" | .keyError => "err key"
 
 def finish (s : St) (c' : Clock) : St × String :=
   match s.saved with
@@ -69,14 +92,20 @@ def step (s : St) : List String → St × String
       | ["simple"] => ({ clk := some (configureSimple a b m d), indiv := false, simple := true }, "ok")
       | _ => (s, "bad-op")
     | _, _, _, _ => (s, "bad-op")
-  | ["init", n, mods] =>
-    match s.clk, n.toNat?, modTable? mods with
-    | some c, some n, some t =>
-      let c1 := create (stepBackward c) n
-      match guardedStep s.indiv c1 t with
-      | .ok c' => ({ s with clk := some c' }, showSt c')
-      | .error e => (s, e)
-    | _, _, _ => (s, "bad-op")
+  | "init" :: n :: mods :: rest =>
+    let cs := match rest with | [] => some ("-", "-") | [a] => some (a, "-") | [a, b] => some (a, b) | _ => none
+    match s.clk, n.toNat?, modTable? mods, cs with
+    | some c, some n, some t, some (a, b) =>
+      match calls? a, natList b with
+      | some calls, some ids =>
+        let c1 := create (stepBackward c) n
+        let c1 := if s.indiv then moveToEnd c1 ids else c1
+        match guardedStep s.indiv c1 t calls with
+        | .ok (c', .done) => ({ s with clk := some c' }, showSt c')
+        | .ok (c', o) => ({ s with clk := some c' }, s!"{showErr o} {showSt c'}")
+        | .error e => (s, e)
+      | _, _ => (s, "bad-op")
+    | _, _, _, _ => (s, "bad-op")
   | ["override", x] =>
     match s.clk, x.toInt? with
     | some c, some x =>
@@ -104,13 +133,19 @@ def step (s : St) : List String → St × String
     match s.clk, natList ids with
     | some c, some ids => if ids.all (knows c) then (s, "ok") else (s, "err population")
     | _, _ => (s, "bad-op")
-  | ["step", mods] =>
-    match s.clk, modTable? mods with
-    | some c, some t =>
-      match guardedStep s.indiv c t with
-      | .ok c' => finish s c'
+  | "step" :: mods :: rest =>
+    let cs := match rest with | [] => some "-" | [a] => some a | _ => none
+    match s.clk, modTable? mods, cs.bind calls? with
+    | some c, some t, some calls =>
+      match guardedStep s.indiv c t calls with
+      | .ok (c', .done) => finish s c'
+      | .ok (c', o) => ({ s with clk := some c', saved := none }, s!"{showErr o} {showSt c'}")   -- nothing is restored after an exception
       | .error e => (s, e)
-    | _, _ => (s, "bad-op")
+    | _, _, _ => (s, "bad-op")
+  | ["fail"] =>
+    match s.clk with
+    | some c => ({ s with saved := none }, showSt c)
+    | none => (s, "bad-op")
   | _ => (s, "bad-op")
 
 def main : IO Unit := Proto.run ({} : St) step
